@@ -232,6 +232,9 @@ def _sarif_doc(doc, entries):
                 other = "f2" if e["file"] == "f1" else "f1"
                 r["locations"].append({"physicalLocation": {"artifactLocation": {"uri": FILES[other]},
                                                             "region": {"startLine": line + 50, "startColumn": 3, "endLine": line + 50, "endColumn": 8}}})
+            if e.get("also") == "samefile":
+                r["locations"].append({"physicalLocation": {"artifactLocation": {"uri": FILES[e["file"]]},
+                                                            "region": {"startLine": line + 50, "startColumn": 3, "endLine": line + 50, "endColumn": 8}}})
             if e["viaIndex"]:
                 r["rule"] = {"index": 0 if e["rule"] == "r1" else 1, "toolComponent": {"index": 0}}
             else:
@@ -250,6 +253,11 @@ def _sarif_expected(exp_tool: dict):
             c[(SARIF_RULE[rule], ri * 100 + pos, 3, 8)] += 1
         out[(SARIF_RULE[rule], FILES[file])] = c
     return {k: v for k, v in out.items() if v}
+
+
+def _write(p: Path, doc, uid: int) -> None:
+    """Every third document starts with a byte order mark (JSON exported on Windows): the same findings are in it."""
+    p.write_text(("\ufeff" if uid % 3 == 0 else "") + json.dumps(doc), encoding="utf-8")
 
 
 def check_docs(chk: Check) -> None:
@@ -284,7 +292,7 @@ def check_docs(chk: Check) -> None:
         ((L, (ix("RESOLVED", True, "r1", "f1"),)), A),
         ((L, (ix("OPEN", True, "r1", "f1"), ix("OPEN", True, "r2", "f1"))), ("null", ())),
     ]
-    sarif_entries = [{"rule": r, "file": f, "viaIndex": v, "also": a} for a in ("none", "otherfile") for r in ("r1", "r2") for f in ("f1", "f2") for v in (False, True)]
+    sarif_entries = [{"rule": r, "file": f, "viaIndex": v, "also": a} for a in ("none", "otherfile", "samefile") for r in ("r1", "r2") for f in ("f1", "f2") for v in (False, True)]
     ne = len(sarif_entries)
     res_seqs = [()] + [(a,) for a in range(1, ne + 1)] + [(a, b) for a in range(1, ne + 1) for b in range(1, ne + 1)]
     sarif_docs = set()
@@ -327,7 +335,7 @@ def check_docs(chk: Check) -> None:
             if kind == "sonar":
                 doc = sc["doc"]
                 p = base / f"s{uid}.json"
-                p.write_text(json.dumps(_sonar_json(doc, s_entries)))
+                _write(p, _sonar_json(doc, s_entries), uid)
                 got = _observed(SonarResultSet.from_json(str(p)))
                 want = _sonar_expected(exp["sonar"], False)
                 shape = f"issues={doc[0][0]},hotspots={doc[1][0]}"
@@ -338,16 +346,28 @@ def check_docs(chk: Check) -> None:
                 paths = []
                 for fi, di in enumerate(sc["doc"], 1):
                     p = base / f"sf{uid}-{fi}.json"
-                    p.write_text(json.dumps(_sonar_json(file_pool[di - 1], s_entries, fi)))
+                    _write(p, _sonar_json(file_pool[di - 1], s_entries, fi), uid)
                     paths.append(str(p))
+                alone_before = _observed(SonarResultSet.from_json(paths[0])) if len(paths) > 1 else None
                 got = _observed(process_sonar_findings(tuple(paths)))
                 want = _sonar_expected(exp["sonar"], True)
                 chk.nontrivial(("sonarfiles", sc["doc"]))
-                _cmp(chk, "sonar-files", f"n={len(paths)}", got, want, {"files": [json.loads(Path(p).read_text()) for p in paths]})
+                _cmp(chk, "sonar-files", f"n={len(paths)}", got, want, {"files": [json.loads(Path(p).read_text(encoding='utf-8-sig')) for p in paths]})
+                if alone_before is not None:
+                    # the same process goes on (no cache is cleared): what one file holds is not changed by having been
+                    # merged with others, and the merge does not depend on the order of the command line
+                    alone_after = _observed(SonarResultSet.from_json(paths[0]))
+                    if alone_after != alone_before:
+                        chk.violation("C12|sonar-files|first-file-altered-by-merge", f"the findings of {Path(paths[0]).name} alone differ after it was merged with {len(paths) - 1} other file(s) in the same process: "
+                                      f"before {_fmt(alone_before)} after {_fmt(alone_after)}", {"files": [json.loads(Path(p).read_text(encoding='utf-8-sig')) for p in paths]})
+                    rev = _observed(process_sonar_findings(tuple(reversed(paths))))
+                    if rev != got:
+                        chk.violation("C12|sonar-files|merge-depends-on-order", f"the same {len(paths)} files in reverse order give other findings: {_fmt(rev)} vs {_fmt(got)}",
+                                      {"files": [json.loads(Path(p).read_text(encoding='utf-8-sig')) for p in paths]})
             elif kind == "sarif":
                 p = base / f"r{uid}.sarif"
                 docj = _sarif_doc(sc["doc"], sarif_entries)
-                p.write_text(json.dumps(docj))
+                _write(p, docj, uid)
                 tools = [t for t, _ in sc["doc"]]
                 chk.nontrivial(("sarif", sc["doc"]))
                 detected = detect_sarif_tools([p])
@@ -376,7 +396,7 @@ def check_docs(chk: Check) -> None:
                         e = dojo_entries[eix - 1]
                         items.append({"id": fi * 100 + pos, "title": DOJO_RULE[e["rule"]], "file_path": FILES[e["file"]], "line": fi * 10 + pos})
                     p = base / f"d{uid}-{fi}.json"
-                    p.write_text(json.dumps({"results": items}))
+                    _write(p, {"results": items}, uid)
                     paths.append(str(p))
                 rs = process_dojo(tuple(paths))
                 got = {}
@@ -390,7 +410,7 @@ def check_docs(chk: Check) -> None:
                     want[(DOJO_RULE[rule], FILES[file])] = Counter((str(f["id"][0] * 100 + f["id"][1]), f["id"][0] * 10 + f["id"][1]) for f in seq)
                 want = {k: v for k, v in want.items() if v}
                 chk.nontrivial(("dojo", sc["doc"]))
-                _cmp(chk, "dojo-files", f"n={len(paths)}", got, want, {"files": [json.loads(Path(p).read_text()) for p in paths]})
+                _cmp(chk, "dojo-files", f"n={len(paths)}", got, want, {"files": [json.loads(Path(p).read_text(encoding='utf-8-sig')) for p in paths]})
         except Exception as ex:  # noqa: BLE001 - a loader that raises loses every finding of the file(s)
             chk.violation(f"C12|{kind}|raises|{type(ex).__name__}", f"{kind} scenario {sc['doc']}: loader raised {type(ex).__name__}: {ex}", {"scenario": str(sc)})
         if kind not in sampled:
